@@ -218,6 +218,42 @@ def run_openpgp(repo, cfg):
     return None
 
 
+def toy_chacha_block(key, nonce, counter):
+    """Stand-in for the ChaCha20 block function on the state layout: an 8-byte nonce has a 64-bit counter, a 12-byte
+    nonce a 32-bit counter and its first four bytes sit where the high counter word is - as in the real cipher."""
+    if len(nonce) == 12:
+        hi = int.from_bytes(nonce[:4], "little")
+        words = (counter & 0xFFFFFFFF, hi, nonce[4:])
+    else:
+        words = (counter & 0xFFFFFFFF, (counter >> 32) & 0xFFFFFFFF, nonce)
+    return hashlib.sha512(b"chacha" + bytes(key) + words[0].to_bytes(4, "little") + words[1].to_bytes(4, "little") + bytes(words[2])).digest()
+
+
+def toy_hchacha(key, nonce16):
+    return hashlib.sha256(b"hchacha" + bytes(key) + bytes(nonce16)).digest()
+
+
+def poly1305(r, s, msg):
+    rr = int.from_bytes(r, "little") & 0x0ffffffc0ffffffc0ffffffc0fffffff
+    acc = 0
+    for o in range(0, len(msg), 16):
+        blk = msg[o:o + 16]
+        acc = (acc + int.from_bytes(blk + b"\x01", "little")) * rr % ((1 << 130) - 5)
+    return ((acc + int.from_bytes(s, "little")) & ((1 << 128) - 1)).to_bytes(16, "little")
+
+
+def ref_chacha_poly(key, nonce, header, msg):
+    if len(nonce) == 24:
+        key = toy_hchacha(key, nonce[:16])
+        nonce = bytes(4) + nonce[16:]
+    n12 = bytes(4) + nonce if len(nonce) == 8 else nonce
+    otk = toy_chacha_block(key, n12, 0)[:32]
+    ks = b"".join(toy_chacha_block(key, nonce, 1 + k) for k in range((len(msg) + 63) // 64))
+    ct = xor(msg, ks[:len(msg)])
+    mac_data = header + bytes(-len(header) % 16) + ct + bytes(-len(ct) % 16) + len(header).to_bytes(8, "little") + len(ct).to_bytes(8, "little")
+    return ct, poly1305(otk[:16], otk[16:], mac_data)
+
+
 def ntz(i):
     n = 0
     while not i & 1:
@@ -342,9 +378,14 @@ class World(object):
                                        "Crypto.Util._raw_api.get_raw_buffer": lambda i, a, kw, st, node: bytes(a[0]) if a and isinstance(a[0], (bytes, bytearray)) else ABytes(None),
                                        "Crypto.Util._raw_api.c_uint8_ptr": lambda i, a, kw, st, node: a[0] if a else UNK,
                                        "Crypto.Util._raw_api.c_size_t": lambda i, a, kw, st, node: a[0] if a else UNK})
+        self.it.extra_models.update({"Crypto.Cipher.ChaCha20.new": self.m_chacha_new, "Crypto.Cipher.ChaCha20._HChaCha20": lambda i, a, kw, st, node: toy_hchacha(a[0], a[1]) if len(a) == 2 and all(isinstance(x, (bytes, bytearray)) for x in a) else ABytes(32)})
+        self.it.method_models["seek"] = self.m_seek
+        self.poly = {}
         self.it.method_models.update({"_create_base_cipher": self.m_base, "get": self.m_get, "address_of": self.m_addr, "release": lambda i, base, a, kw, st, node: None})
         self.it.ffi_models = {"OCB_start_operation": self.f_start, "OCB_update": self.f_update, "OCB_encrypt": self.f_enc, "OCB_decrypt": self.f_dec,
-                              "OCB_digest": self.f_digest, "OCB_stop_operation": lambda i, a, kw, st, node: 0}
+                              "OCB_digest": self.f_digest, "OCB_stop_operation": lambda i, a, kw, st, node: 0,
+                              "poly1305_init": self.f_poly_init, "poly1305_update": self.f_poly_update, "poly1305_digest": self.f_poly_digest,
+                              "poly1305_destroy": lambda i, a, kw, st, node: 0}
         self.ocb = {}
         self.it.unroll_limit = 4000
         self.it.for_limit = 400
@@ -422,6 +463,12 @@ class World(object):
             r, h["reg"] = cbc_enc(key, h["reg"], data)
             if not data:
                 r = b""
+        elif mode == "stream":
+            pos = h["pos"]
+            first = pos // 64
+            ks = b"".join(toy_chacha_block(key, h["nonce"], first + k) for k in range((pos + len(data) + 63) // 64 - first))
+            r = xor(data, ks[pos % 64: pos % 64 + len(data)])
+            h["pos"] = pos + len(data)
         elif mode == MODE["CFB"]:
             r = bytearray()
             for b in data:
@@ -505,6 +552,48 @@ class World(object):
         st.heap[o.ident].update({"kind": "mac", "data": bytes(d) if isinstance(d, (bytes, bytearray)) else None})
         return o
 
+    # ChaCha20 stand-in and the native Poly1305 behind the FFI (exact arithmetic; the C code is decided by K-pw|c|poly1305)
+    def m_chacha_new(self, i, a, kw, st, node):
+        key, nonce = kw.get("key"), kw.get("nonce")
+        if not isinstance(key, (bytes, bytearray)) or not isinstance(nonce, (bytes, bytearray)) or len(key) != 32 or len(nonce) not in (8, 12):
+            return UNK
+        o = i.new_obj(st, label="chacha")
+        st.heap[o.ident].update({"kind": "cipher", "mode": "stream", "key": bytes(key), "nonce": bytes(nonce), "pos": 0, "block_size": 1})
+        return o
+
+    def m_seek(self, i, base, a, kw, st, node):
+        h = st.heap.get(getattr(base, "ident", -1), {})
+        if h.get("mode") != "stream" or not a or not isinstance(a[0], int) or a[0] < 0:
+            return UNK
+        h["pos"] = a[0]
+        return None
+
+    def f_poly_init(self, i, a, kw, st, node):
+        addr, r, rl, s_, sl = (list(a) + [None] * 5)[:5]
+        if not (isinstance(addr, tuple) and isinstance(r, (bytes, bytearray)) and isinstance(s_, (bytes, bytearray))):
+            return Unknown("int")
+        if rl != 16 or sl != 16:
+            return 3
+        hid = len(self.poly) + 1
+        self.poly[hid] = [bytes(r), bytes(s_), b""]
+        st.heap[addr[1]]["val"] = ("poly", hid)
+        return 0
+
+    def f_poly_update(self, i, a, kw, st, node):
+        h = a[0]
+        if not (isinstance(h, tuple) and h[0] == "poly") or not isinstance(a[1], (bytes, bytearray, memoryview)) or not isinstance(a[2], int):
+            return Unknown("int")
+        self.poly[h[1]][2] += bytes(a[1])[:a[2]]
+        return 0
+
+    def f_poly_digest(self, i, a, kw, st, node):
+        h = a[0]
+        if not (isinstance(h, tuple) and h[0] == "poly") or not isinstance(a[1], bytearray) or a[2] != 16:
+            return Unknown("int")
+        r, s_, data = self.poly[h[1]]
+        a[1][:16] = poly1305(r, s_, data)
+        return 0
+
     # OCB: the native layer behind the FFI
     def m_voidptr(self, i, a, kw, st, node):
         o = i.new_obj(st, label="voidptr")
@@ -575,7 +664,11 @@ class World(object):
     # -- driving
     def create(self, modname, fname, **kwargs):
         mod = self.repo.module(modname)
-        res = self.it.run(mod, self.repo.func(mod, fname), {"factory": self.factory, "kwargs": kwargs}, state=self.st)
+        fn = self.repo.func(mod, fname)
+        seeds = {"kwargs": kwargs}
+        if any(x.arg == "factory" for x in fn.args.args):
+            seeds["factory"] = self.factory
+        res = self.it.run(mod, fn, seeds, state=self.st)
         rets = res.returns()
         if res.rejected():
             return ("raises",) + tuple(sorted(set(res.raise_classes())))
@@ -634,7 +727,8 @@ def run_mode(repo, name, cfg):
                            "siv": ("Crypto.Cipher._mode_siv", "_create_siv_cipher", lambda: ref_siv(key, [x for x in pieces(header, how) if x] if header else [], nonce, msg)),
                            "ccm": ("Crypto.Cipher._mode_ccm", "_create_ccm_cipher", lambda: ref_ccm(key, nonce, header, msg, tlen)),
                            "gcm": ("Crypto.Cipher._mode_gcm", "_create_gcm_cipher", lambda: ref_gcm(key, nonce, header, msg, tlen)),
-                           "ocb": ("Crypto.Cipher._mode_ocb", "_create_ocb_cipher", lambda: ref_ocb(key, nonce, header, msg, tlen))}[name]
+                           "ocb": ("Crypto.Cipher._mode_ocb", "_create_ocb_cipher", lambda: ref_ocb(key, nonce, header, msg, tlen)),
+                           "chachapoly": ("Crypto.Cipher.ChaCha20_Poly1305", "new", lambda: ref_chacha_poly(key, nonce, header, msg))}[name]
     want_c, want_t = ref()
 
     def make():
@@ -642,7 +736,7 @@ def run_mode(repo, name, cfg):
         kw = {"key": key}
         if nonce is not None:
             kw["nonce"] = nonce
-        if name != "siv":
+        if name not in ("siv", "chachapoly"):
             kw["mac_len"] = tlen
         if name == "ccm" and how != "one":
             kw["msg_len"] = len(msg)
@@ -738,6 +832,9 @@ def configs(name, thorough=False):
                     variants = [(pat(11, 1), 16), (pat(7, 2), 4), (pat(13, 3), 10)]
                 elif name == "ocb":
                     variants = [(pat(15, 1), 16), (pat(12, 2), 8), (pat(1, 3), 12), (bytes(11) + b"\x3f", 16)]
+                elif name == "chachapoly":
+                    key = pat(32, 0x60 + ml)
+                    variants = [(pat(12, 1), 16), (pat(8, 2), 16), (pat(24, 3), 16)]
                 else:
                     variants = [(pat(12, 1), 16), (pat(1, 2), 4), (pat(16, 3), 13), (pat(33, 4), 16)]
                 if not thorough:
@@ -747,7 +844,7 @@ def configs(name, thorough=False):
     return out
 
 
-def compose_tables(check, ctx, modes=("eax", "siv", "ccm", "gcm", "ocb"), rule="K-pw"):
+def compose_tables(check, ctx, modes=("eax", "siv", "ccm", "gcm", "ocb", "chachapoly"), rule="K-pw"):
     from ..par import pmap
     repo = ctx.repo
     th = ctx.tier == "thorough"
@@ -756,7 +853,8 @@ def compose_tables(check, ctx, modes=("eax", "siv", "ccm", "gcm", "ocb"), rule="
             "ccm": "SP 800-38C: B0 / associated-data header / CBC-MAC, S0 = E(Ctr0), C = P xor S1.., T = MSB_tlen(T xor S0)",
             "gcm": "SP 800-38D: J0 from the IV, C = GCTR(inc32(J0), P), T = MSB_t(E(J0) xor GHASH_H(A || 0* || C || 0* || len(A) || len(C)))",
             "ocb": "RFC 7253: nonce = taglen || 0* || 1 || N, Offset_0 from Ktop / Stretch / bottom, whole blocks and the final partial block handed to the native layer, tag = MSB_taglen"}
-    SRC = {"eax": "Crypto.Cipher._mode_eax", "siv": "Crypto.Cipher._mode_siv", "ccm": "Crypto.Cipher._mode_ccm", "gcm": "Crypto.Cipher._mode_gcm", "ocb": "Crypto.Cipher._mode_ocb"}
+    CITE["chachapoly"] = "RFC 8439 2.8 (and XChaCha20: subkey by HChaCha20 of the first 16 nonce bytes): one-time key = first 32 bytes of block 0, encryption from block 1, tag = Poly1305(AAD || pad16 || C || pad16 || len(AAD) || len(C))"
+    SRC = {"chachapoly": "Crypto.Cipher.ChaCha20_Poly1305", "eax": "Crypto.Cipher._mode_eax", "siv": "Crypto.Cipher._mode_siv", "ccm": "Crypto.Cipher._mode_ccm", "gcm": "Crypto.Cipher._mode_gcm", "ocb": "Crypto.Cipher._mode_ocb"}
     total = 0
     for name in modes:
         if name == "openpgp":
